@@ -229,6 +229,10 @@ func (c *fileConn) QueryContext(ctx context.Context, query string, args []driver
 }
 
 func (stmt *fileStmt) query(values []string) (driver.Rows, error) {
+	if n := numInput(stmt.q); len(values) < n {
+		return nil, fmt.Errorf("query has placeholders up to $%d but only %d arguments were provided", n, len(values))
+	}
+
 	q := queryparser.ReplacePlaceholders(stmt.q, values)
 
 	qq := convert.ToQuery(q)
@@ -453,6 +457,10 @@ func (stmt *grpcStmt) Query(args []driver.Value) (driver.Rows, error) {
 }
 
 func (stmt *grpcStmt) query(values []string) (driver.Rows, error) {
+	if n := numInput(stmt.q); len(values) < n {
+		return nil, fmt.Errorf("query has placeholders up to $%d but only %d arguments were provided", n, len(values))
+	}
+
 	q := queryparser.ReplacePlaceholders(stmt.q, values)
 
 	result, err := stmt.c.client.Query(context.Background(), &updogv1.QueryRequest{
